@@ -225,6 +225,106 @@ Section GenericProofs.
     - left. exists lo, hi, x1, x2. destruct (invcdf_core_inv M _ _ _ _ _ _ _ E) as (A1 & A2 & A3 & A4). auto 10.
     - right. auto.
   Qed.
+  (* ----- the value returned by the ALGORITHM is non-decreasing in y (no hypothesis on F) ----- *)
+  Lemma expand_right_lo_ge : forall fuel y hi delta a b,
+    0 < delta -> expand_right F fuel y hi delta = Some (a, b) -> hi <= a.
+  Proof.
+    induction fuel as [|f IH]; intros y hi delta a b Hd E; simpl in E; [discriminate|].
+    destruct (Qltb (F (hi + delta)) y).
+    - specialize (IH y (hi + delta) (2 * delta) a b ltac:(lra) E). lra.
+    - injection E as <- <-. lra.
+  Qed.
+  Lemma expand_left_hi_le : forall fuel y lo delta a b,
+    0 < delta -> expand_left F fuel y lo delta = Some (a, b) -> b <= lo.
+  Proof.
+    induction fuel as [|f IH]; intros y lo delta a b Hd E; simpl in E; [discriminate|].
+    destruct (Qle_bool y (F (lo - delta))).
+    - specialize (IH y (lo - delta) (2 * delta) a b ltac:(lra) E). lra.
+    - injection E as <- <-. lra.
+  Qed.
+
+  Lemma expand_right_mono : forall fuel y1 y2 hi delta a1 b1 a2 b2,
+    0 < delta -> y1 <= y2 ->
+    expand_right F fuel y1 hi delta = Some (a1, b1) -> expand_right F fuel y2 hi delta = Some (a2, b2) ->
+    (a1, b1) = (a2, b2) \/ b1 <= a2.
+  Proof.
+    induction fuel as [|f IH]; intros y1 y2 hi delta a1 b1 a2 b2 Hd Hy E1 E2; simpl in E1, E2; [discriminate|].
+    destruct (Qltb (F (hi + delta)) y1) eqn:C1; destruct (Qltb (F (hi + delta)) y2) eqn:C2.
+    - apply (IH y1 y2 (hi + delta) (2 * delta)); try assumption; lra.
+    - apply Qltb_true in C1. apply Qltb_false in C2. lra.
+    - right. injection E1 as <- <-. apply (expand_right_lo_ge f y2 (hi + delta) (2 * delta) a2 b2); [lra | assumption].
+    - left. congruence.
+  Qed.
+  Lemma expand_left_mono : forall fuel y1 y2 lo delta a1 b1 a2 b2,
+    0 < delta -> y1 <= y2 ->
+    expand_left F fuel y1 lo delta = Some (a1, b1) -> expand_left F fuel y2 lo delta = Some (a2, b2) ->
+    (a1, b1) = (a2, b2) \/ b1 <= a2.
+  Proof.
+    induction fuel as [|f IH]; intros y1 y2 lo delta a1 b1 a2 b2 Hd Hy E1 E2; simpl in E1, E2; [discriminate|].
+    destruct (Qle_bool y1 (F (lo - delta))) eqn:C1; destruct (Qle_bool y2 (F (lo - delta))) eqn:C2.
+    - apply (IH y1 y2 (lo - delta) (2 * delta)); try assumption; lra.
+    - right. injection E2 as <- <-. apply (expand_left_hi_le f y1 (lo - delta) (2 * delta) a1 b1); [lra | assumption].
+    - apply Qleb_false in C1. apply Qleb_true in C2. lra.
+    - left. congruence.
+  Qed.
+
+  Lemma bisect_mono : forall k y1 y2 lo hi, y1 <= y2 -> F lo < y1 -> y2 <= F hi -> lo <= hi ->
+    snd (bisect_bool F k y1 lo hi) <= snd (bisect_bool F k y2 lo hi).
+  Proof.
+    induction k as [|k IH]; intros y1 y2 lo hi Hy Hlo Hhi Hle.
+    - simpl. lra.
+    - cbn [bisect_bool]. set (mid := Qred ((hi + lo) / 2)).
+      assert (Em : mid == (hi + lo) / 2) by apply Qred_correct.
+      assert (Em2 : 2 * mid == hi + lo) by (rewrite Em; field).
+      destruct (Qltb (F mid) y1) eqn:C1; destruct (Qltb (F mid) y2) eqn:C2.
+      + apply Qltb_true in C1. apply IH; try assumption; lra.
+      + apply Qltb_true in C1. apply Qltb_false in C2. lra.
+      + apply Qltb_false in C1. apply Qltb_true in C2.
+        pose proof (bisect_inv k y1 lo mid Hlo C1 ltac:(lra)) as I1.
+        pose proof (bisect_inv k y2 mid hi C2 Hhi ltac:(lra)) as I2.
+        destruct (bisect_bool F k y1 lo mid) as [u1 u2]. destruct (bisect_bool F k y2 mid hi) as [v1 v2].
+        simpl. destruct I1 as (_ & _ & _ & _ & _ & I1). destruct I2 as (_ & _ & _ & I2 & I2' & _). lra.
+      + apply Qltb_false in C1. apply Qltb_false in C2. apply IH; try assumption; lra.
+  Qed.
+
+  Theorem invcdf_generic_monotone_in_y : forall fuel k y1 y2 r1 r2,
+    0 < y1 -> y1 <= y2 -> y2 < 1 ->
+    invcdf_generic F bl bh fuel k y1 = IVal (XFin r1) -> invcdf_generic F bl bh fuel k y2 = IVal (XFin r2) ->
+    r1 <= r2.
+  Proof.
+    intros fuel k y1 y2 r1 r2 H0 H12 H1 E1 E2. unfold invcdf_generic in E1, E2.
+    destruct (invcdf_special_values fuel k y1) as (_ & _ & _ & _ & _ & S1). rewrite (S1 H0 ltac:(lra)) in E1.
+    destruct (invcdf_special_values fuel k y2) as (_ & _ & _ & _ & _ & S2). rewrite (S2 ltac:(lra) H1) in E2.
+    unfold invcdf_core in E1, E2.
+    destruct (bracket F fuel y1) as [[lo1 hi1]|] eqn:B1; [|discriminate].
+    destruct (bracket F fuel y2) as [[lo2 hi2]|] eqn:B2; [|discriminate].
+    (* facts about the two brackets *)
+    assert (K1 : F lo1 < y1 /\ y1 <= F hi1 /\ lo1 < hi1).
+    { unfold bracket in B1. destruct (goes_right F y1) eqn:G; unfold goes_right in G.
+      - apply Qltb_true in G. destruct (expand_right_some fuel y1 0 1 lo1 hi1 ltac:(lra) G B1) as (? & ? & ? & _). auto.
+      - apply Qltb_false in G. destruct (expand_left_some fuel y1 0 1 lo1 hi1 ltac:(lra) G B1) as (? & ? & ? & _). auto. }
+    assert (K2 : F lo2 < y2 /\ y2 <= F hi2 /\ lo2 < hi2).
+    { unfold bracket in B2. destruct (goes_right F y2) eqn:G; unfold goes_right in G.
+      - apply Qltb_true in G. destruct (expand_right_some fuel y2 0 1 lo2 hi2 ltac:(lra) G B2) as (? & ? & ? & _). auto.
+      - apply Qltb_false in G. destruct (expand_left_some fuel y2 0 1 lo2 hi2 ltac:(lra) G B2) as (? & ? & ? & _). auto. }
+    destruct K1 as (K1a & K1b & K1c). destruct K2 as (K2a & K2b & K2c).
+    assert (D : (lo1, hi1) = (lo2, hi2) \/ hi1 <= lo2).
+    { unfold bracket in B1, B2. destruct (goes_right F y1) eqn:G1; destruct (goes_right F y2) eqn:G2; unfold goes_right in G1, G2.
+      - apply (expand_right_mono fuel y1 y2 0 1); try assumption; lra.
+      - apply Qltb_true in G1. apply Qltb_false in G2. lra.
+      - right. pose proof (expand_left_hi_le fuel y1 0 1 lo1 hi1 ltac:(lra) B1).
+        pose proof (expand_right_lo_ge fuel y2 0 1 lo2 hi2 ltac:(lra) B2). lra.
+      - apply (expand_left_mono fuel y1 y2 0 1); try assumption; lra. }
+    pose proof (bisect_inv k y1 lo1 hi1 K1a K1b ltac:(lra)) as I1.
+    pose proof (bisect_inv k y2 lo2 hi2 K2a K2b ltac:(lra)) as I2.
+    destruct D as [D|D].
+    - injection D as <- <-. pose proof (bisect_mono k y1 y2 lo1 hi1 H12 K1a K2b ltac:(lra)) as M.
+      destruct (bisect_bool F k y1 lo1 hi1) as [u1 u2]. destruct (bisect_bool F k y2 lo1 hi1) as [v1 v2].
+      simpl in M. injection E1 as <-. injection E2 as <-. assumption.
+    - destruct (bisect_bool F k y1 lo1 hi1) as [u1 u2]. destruct (bisect_bool F k y2 lo2 hi2) as [v1 v2].
+      injection E1 as <-. injection E2 as <-.
+      destruct I1 as (_ & _ & _ & _ & _ & I1). destruct I2 as (_ & _ & _ & I2 & I2' & _). lra.
+  Qed.
 End GenericProofs.
 
 (* ================= Rand ================= *)
